@@ -40,6 +40,7 @@ import (
 	"time"
 
 	"github.com/influxdata/influxdb/v2/pkg/durablequeue"
+	"github.com/influxdata/influxdb/v2/pkg/verifrt/vrt"
 	"verif/h/crashfs"
 	"verif/h/vlib"
 )
@@ -614,6 +615,7 @@ type Case struct {
 	Ops   []string   `json:"ops,omitempty"`
 	End   string     `json:"end,omitempty"`
 	Crash *CrashCase `json:"crash,omitempty"` // crash family (then Ops/End are unused)
+	Sched *SchedCase `json:"sched,omitempty"` // schedule part (then Ops/End are unused)
 }
 
 type runResult struct {
@@ -1568,7 +1570,7 @@ func runCrash(c *vlib.Ctx) {
 			c.HarnessError(fmt.Sprintf("crash family: explorer panicked: %v\n%s", r, debug.Stack()))
 		}
 	}()
-	if os.Getenv("C26_ONLY") == "seq" {
+	if os.Getenv("C26_ONLY") == "seq" || os.Getenv("C26_ONLY") == "sched" {
 		return
 	}
 	scratch := vlib.Scratch("c26c-")
@@ -1643,6 +1645,635 @@ func replayCrash(cs *CrashCase) (bool, string) {
 	return clause != "harness", obs + clause + "@" + stage + ": " + detail
 }
 
+// ================================================================ schedule part (engine: vsched)
+//
+// pkg/durablequeue/queue.go (the only file of the package that imports sync: Queue.mu and segment.mu are declared there;
+// scanner.go locks them through those types) is compiled against the modelled sync. A small queue state is built
+// unscheduled, then 2 threads (an appender against a scanner / a Current+Advance consumer / a purge / a second
+// appender) run on the SAME real Queue and every interleaving with <= B preemptions at the Lock/RLock operations of
+// Queue.mu and segment.mu (and at the threads' call boundaries) is executed. The call/return history and the complete
+// read-outs made after the threads have finished (live, and after a restart on copies of the directory) are judged by
+// the FIFO / at-least-once model.
+
+// SchedThread is one thread program.
+type SchedThread struct {
+	Kind    string   `json:"kind"`              // append | scan | advance | purge
+	Appends []string `json:"appends,omitempty"` // append: OpAppend1 | OpAppend9 | OpAppendSeg, in order
+	N       int      `json:"next,omitempty"`    // scan: number of Next calls (0 = until Next returns false)
+}
+
+func (t SchedThread) String() string {
+	switch t.Kind {
+	case "append":
+		return "append(" + strings.Join(t.Appends, ",") + ")"
+	case "scan":
+		if t.N == 0 {
+			return "scan(NewScanner,Next*,Advance)"
+		}
+		return fmt.Sprintf("scan(NewScanner,Next x%d,Advance)", t.N)
+	case "advance":
+		return "consume(Current,Queue.Advance)"
+	}
+	return t.Kind
+}
+
+// SchedScenario = initial history (ops of the sequential alphabet, executed unscheduled) + thread programs.
+type SchedScenario struct {
+	Init    []string      `json:"init"`
+	Threads []SchedThread `json:"threads"`
+}
+
+func (s SchedScenario) String() string {
+	var ts []string
+	for _, t := range s.Threads {
+		ts = append(ts, t.String())
+	}
+	return fmt.Sprintf("init %v: %s", s.Init, strings.Join(ts, " || "))
+}
+
+func (s SchedScenario) kinds() string {
+	var ks []string
+	for _, t := range s.Threads {
+		k := t.Kind
+		if k == "advance" {
+			k = "Queue.Advance"
+		}
+		ks = append(ks, k)
+	}
+	return strings.Join(ks, "||")
+}
+
+// SchedCase is the replayable form of one schedule.
+type SchedCase struct {
+	Scenario SchedScenario `json:"scenario"`
+	Schedule []int         `json:"schedule"`
+	Trace    []string      `json:"trace,omitempty"`
+}
+
+// schedRec is one call of a thread with its place in the global call/return order.
+type schedRec struct {
+	Thread    int
+	Op        string
+	Call, Ret int
+	Entry     []byte   // append: the payload
+	Err       error    // append / NewScanner / Current / purge: the call's error
+	Delivered [][]byte // scan: what Next yielded; advance: what Current returned
+	ScanErr   error    // scan: Scanner.Err() after the last Next
+	AdvCalled bool     // scan / advance: the Advance call was made
+	AdvErr    error    // its error
+}
+
+// schedObs: what the quiescent queue delivered after the threads had finished.
+type schedObs struct {
+	LiveCur    []byte
+	LiveCurErr error
+	Live       [][]byte // complete live read-out (scanner)
+	LiveFail   *Fail
+	ReCur      [][]byte // read-out after a restart on a copy of the directory, Current+Advance
+	ReCurFail  *Fail
+	ReScan     [][]byte // the same with the scanner
+	ReScanFail *Fail
+}
+
+type schedOut struct {
+	Harness  string
+	Fail     *Fail
+	Stage    string // history | live | reopen
+	Recs     []schedRec
+	Obs      schedObs
+	Model    *Model // after the initial history
+	Redeliv  bool   // some read-out started before the consumer's position (allowed: at least once)
+	Outcome  string
+	Deadlock string
+}
+
+// schedEntry: the payload of append j of thread ti (letters m.. : never used by an initial history, whose op index is < 12).
+func schedEntry(cfg Cfg, op string, ti, j int) []byte { return EntryFor(cfg, op, 12+4*ti+j) }
+
+func schedFilter(kind vrt.OpKind, label string) bool {
+	return kind == vrt.OpLock || kind == vrt.OpRLock || kind == vrt.OpHook
+}
+
+var schedPurgeCutoff = time.Date(2001, 1, 1, 0, 0, 0, 0, time.UTC)
+
+func schedHarness(base string, sc SchedScenario, out *schedOut) *vrt.Harness {
+	return &vrt.Harness{Name: "c26:" + sc.String(), Filter: schedFilter, Body: func(x *vrt.Exec) {
+		*out = schedOut{}
+		cfg := DefaultCfg
+		dir, err := os.MkdirTemp(base, "s")
+		if err != nil {
+			out.Harness = "cannot create scratch directory"
+			return
+		}
+		defer os.RemoveAll(dir)
+		qdir := filepath.Join(dir, "q")
+		if err := os.Mkdir(qdir, 0o777); err != nil {
+			out.Harness = "cannot create scratch directory"
+			return
+		}
+		h := PerformHistory(qdir, cfg, sc.Init, true)
+		if h.Fail != nil {
+			out.Harness = fmt.Sprintf("initial history failed (sequential family's business): %s/%s", h.Fail.Clause, h.Fail.Feat)
+			return
+		}
+		q := h.Queue
+		closed := false
+		defer func() {
+			if !closed {
+				q.Close()
+			}
+		}()
+		out.Model = h.Model
+		hasPurge := false
+		for _, t := range sc.Threads {
+			hasPurge = hasPurge || t.Kind == "purge"
+		}
+		if hasPurge {
+			if f := ageSegments(qdir); f != nil {
+				out.Harness = "aging the segment files: " + f.Why
+				return
+			}
+		}
+		ev := 0
+		recs := make([][]schedRec, len(sc.Threads))
+		for ti, t := range sc.Threads {
+			ti, t := ti, t
+			x.Go(fmt.Sprintf("T%d:%s", ti, t.Kind), func() {
+				switch t.Kind {
+				case "append":
+					for j, op := range t.Appends {
+						b := schedEntry(cfg, op, ti, j)
+						vrt.Hook("call:Append")
+						ev++
+						r := schedRec{Thread: ti, Op: "Append(" + short(b) + ")", Call: ev, Entry: b}
+						r.Err = q.Append(append([]byte(nil), b...))
+						ev++
+						r.Ret = ev
+						recs[ti] = append(recs[ti], r)
+					}
+				case "scan":
+					vrt.Hook("call:NewScanner")
+					ev++
+					r := schedRec{Thread: ti, Op: t.String(), Call: ev}
+					s, err := q.NewScanner()
+					if err != nil {
+						r.Err = err
+					} else {
+						for n := 0; (t.N == 0 || n < t.N) && n < 8 && s.Next(); n++ {
+							r.Delivered = append(r.Delivered, s.Bytes())
+						}
+						r.ScanErr = s.Err()
+						r.AdvCalled = true
+						_, r.AdvErr = s.Advance()
+					}
+					ev++
+					r.Ret = ev
+					recs[ti] = append(recs[ti], r)
+				case "advance":
+					vrt.Hook("call:Current")
+					ev++
+					r := schedRec{Thread: ti, Op: t.String(), Call: ev}
+					b, err := q.Current()
+					if err != nil {
+						r.Err = err
+					} else {
+						r.Delivered = [][]byte{b}
+						r.AdvCalled = true
+						r.AdvErr = q.Advance()
+					}
+					ev++
+					r.Ret = ev
+					recs[ti] = append(recs[ti], r)
+				case "purge":
+					vrt.Hook("call:PurgeOlderThan")
+					ev++
+					r := schedRec{Thread: ti, Op: "PurgeOlderThan(all initial segments aged)", Call: ev}
+					r.Err = q.PurgeOlderThan(schedPurgeCutoff)
+					ev++
+					r.Ret = ev
+					recs[ti] = append(recs[ti], r)
+				}
+			})
+		}
+		x.S.MaxSteps = 5000
+		x.Run()
+		if x.S.Deadlock || x.S.StepCap {
+			out.Deadlock = "deadlock"
+			if x.S.StepCap {
+				out.Deadlock = "livelock(step cap)"
+			}
+			x.S.Abort()
+			return
+		}
+		x.S.Drain()
+		for _, rs := range recs {
+			out.Recs = append(out.Recs, rs...)
+		}
+		// quiescent observations: the head, two copies of the directory (restart images; everything acknowledged has
+		// been written and fsynced), the complete live read-out, then the restarts
+		bound := len(h.Model.Appended) + 8
+		o := &out.Obs
+		o.LiveCur, o.LiveCurErr = q.Current()
+		d2, d3 := filepath.Join(dir, "copy-current"), filepath.Join(dir, "copy-scanner")
+		if err := copyTree(qdir, d2); err != nil {
+			out.Harness = "copying the queue directory failed"
+			return
+		}
+		if err := copyTree(qdir, d3); err != nil {
+			out.Harness = "copying the queue directory failed"
+			return
+		}
+		o.Live, o.LiveFail = Drain(q, "scanner", bound)
+		closed = true
+		if err := q.Close(); err != nil {
+			out.Harness = "Close failed"
+			return
+		}
+		reopen := func(d, how string) ([][]byte, *Fail) {
+			q2, err := openQueue(d, cfg, h.Model.MaxSize)
+			if err != nil {
+				return nil, &Fail{"open-failed", "restart", strings.ReplaceAll(err.Error(), d, "<dir>"), -1}
+			}
+			defer q2.Close()
+			return Drain(q2, how, bound)
+		}
+		o.ReCur, o.ReCurFail = reopen(d2, "current")
+		o.ReScan, o.ReScanFail = reopen(d3, "scanner")
+		judgeSched(sc, out)
+		x.Outcome = out.Outcome
+	}}
+}
+
+// judgeSched applies the FIFO / at-least-once model to the call/return history and the quiescent read-outs.
+//
+// Q = entries of the initial history ++ the threads' acknowledged appends in an order consistent with their
+// call/return order (two appends that overlap in time may take either order). The consumer thread (there is at most
+// one) must have been handed Q[head], Q[head+1], ... and, if its Advance returned nil, has moved the head behind
+// them. Every complete read-out made afterwards must be Q[k:] for some k <= the head so moved (k smaller = redelivery,
+// allowed: at least once); a purge may additionally drop any prefix of the entries of the initial history (whose
+// segment files were aged), never an entry appended during the run. Nothing else may be delivered.
+func judgeSched(sc SchedScenario, out *schedOut) {
+	m := out.Model
+	fail := func(stage string, f *Fail) {
+		if out.Fail == nil {
+			out.Fail, out.Stage = f, stage
+		}
+	}
+	var apps []schedRec
+	var cons *schedRec
+	purge := false
+	for i := range out.Recs {
+		r := &out.Recs[i]
+		switch {
+		case r.Entry != nil:
+			if r.Err != nil {
+				// 1024 bytes of max size are never reached: nothing may reject an append
+				fail("history", &Fail{"rejected-below-size-limit", "Append/err=" + errClass(r.Err), fmt.Sprintf("%s failed with %q although the queue holds far less than its max size", r.Op, r.Err), -1})
+				return
+			}
+			apps = append(apps, *r)
+		case strings.HasPrefix(r.Op, "Purge"):
+			purge = true
+			if r.Err != nil {
+				fail("history", &Fail{"purge-failed", "PurgeOlderThan(2001)", r.Err.Error(), -1})
+				return
+			}
+		default:
+			cons = r
+		}
+	}
+	rem0 := m.Remaining()
+	adv := 0
+	if cons != nil {
+		what := "Scanner"
+		if !strings.HasPrefix(cons.Op, "scan") {
+			what = "Current"
+		}
+		switch {
+		case cons.Err != nil && len(rem0) > 0:
+			fail("history", &Fail{"entry-not-delivered", what + "/err=" + errClass(cons.Err), fmt.Sprintf("%s: failed with %q although %s were in the queue before the threads started", cons.Op, cons.Err, shortList(rem0)), -1})
+			return
+		case cons.ScanErr != nil:
+			fail("history", &Fail{"entry-not-delivered", "Scanner.Err/err=" + errClass(cons.ScanErr), fmt.Sprintf("%s: scanner error %q after %s", cons.Op, cons.ScanErr, shortList(cons.Delivered)), -1})
+			return
+		case cons.Err == nil && len(cons.Delivered) == 0 && len(rem0) > 0:
+			fail("history", &Fail{"entry-not-delivered", "Scanner.Next/none", fmt.Sprintf("%s: yielded nothing although %s were in the queue before the threads started", cons.Op, shortList(rem0)), -1})
+			return
+		case cons.AdvCalled && cons.AdvErr != nil:
+			fail("history", &Fail{"advance-failed", what + ".Advance/err=" + errClass(cons.AdvErr), fmt.Sprintf("%s: Advance failed with %q after %s", cons.Op, cons.AdvErr, shortList(cons.Delivered)), -1})
+			return
+		}
+		if cons.AdvCalled {
+			adv = len(cons.Delivered)
+		}
+	}
+	// every order of the acknowledged appends that respects returned-before-called
+	var orders [][]schedRec
+	var rec func(cur []schedRec, used []bool)
+	rec = func(cur []schedRec, used []bool) {
+		if len(cur) == len(apps) {
+			orders = append(orders, append([]schedRec(nil), cur...))
+			return
+		}
+		for i := range apps {
+			if used[i] {
+				continue
+			}
+			ok := true
+			for j := range apps {
+				if !used[j] && j != i && apps[j].Ret < apps[i].Call {
+					ok = false
+				}
+			}
+			if !ok {
+				continue
+			}
+			used[i] = true
+			rec(append(cur, apps[i]), used)
+			used[i] = false
+		}
+	}
+	rec(nil, make([]bool, len(apps)))
+	type verdict struct {
+		stage string
+		f     *Fail
+		redel bool
+	}
+	check := func(order []schedRec) verdict {
+		Q := append([][]byte(nil), m.Appended...)
+		for _, a := range order {
+			Q = append(Q, a.Entry)
+		}
+		if cons != nil {
+			for i, d := range cons.Delivered {
+				switch k := m.Head + i; {
+				case k >= len(Q):
+					return verdict{"history", &Fail{"fabricated-entry", "delivered-beyond-queue", fmt.Sprintf("%s: was handed %s but the queue held only %s", cons.Op, shortList(cons.Delivered), shortList(Q[m.Head:])), -1}, false}
+				case !bytes.Equal(Q[k], d):
+					return verdict{"history", &Fail{"wrong-order", "delivered", fmt.Sprintf("%s: was handed %s, the queue held %s", cons.Op, shortList(cons.Delivered), shortList(Q[m.Head:])), -1}, false}
+				}
+			}
+		}
+		head := m.Head + adv
+		maxk := head
+		if purge {
+			maxk = max(maxk, len(m.Appended))
+		}
+		e := Expect{Appended: Q, Head: maxk, Exact: false}
+		redel := false
+		o := &out.Obs
+		// the head of the live queue
+		switch {
+		case o.LiveCurErr != nil:
+			if maxk < len(Q) {
+				return verdict{"live", &Fail{"entry-not-delivered", "Current/err=" + errClass(o.LiveCurErr), fmt.Sprintf("after the threads finished Current failed with %q; acknowledged and not advanced past: %s", o.LiveCurErr, shortList(Q[head:])), -1}, false}
+			}
+		default:
+			found := false
+			for k := 0; k <= maxk && k < len(Q); k++ {
+				found = found || bytes.Equal(Q[k], o.LiveCur)
+			}
+			if !found {
+				clause, feat := "fabricated-entry", "Current"
+				for k := maxk + 1; k < len(Q); k++ {
+					if bytes.Equal(Q[k], o.LiveCur) {
+						clause, feat = "entry-not-delivered", "Current/skips-undelivered"
+					}
+				}
+				return verdict{"live", &Fail{clause, feat, fmt.Sprintf("after the threads finished Current returned %s; acknowledged and not advanced past: %s", short(o.LiveCur), shortList(Q[head:])), -1}, false}
+			}
+		}
+		for _, ro := range []struct {
+			stage, how string
+			got        [][]byte
+			df         *Fail
+		}{{"live", "scanner", o.Live, o.LiveFail}, {"reopen", "current", o.ReCur, o.ReCurFail}, {"reopen", "scanner", o.ReScan, o.ReScanFail}} {
+			f := ro.df
+			if f == nil {
+				f = Compare(ro.got, e)
+			}
+			if f != nil {
+				ff := *f
+				ff.Why = fmt.Sprintf("complete read-out (%s, %s) after the threads finished: %s (queue in append order %s, consumer advanced past %d)", ro.stage, ro.how, f.Why, shortList(Q), adv)
+				return verdict{ro.stage, &ff, false}
+			}
+			if len(ro.got) > len(Q)-head {
+				redel = true
+			}
+		}
+		return verdict{"", nil, redel}
+	}
+	var first verdict
+	for i, ord := range orders {
+		v := check(ord)
+		if v.f == nil {
+			out.Redeliv = v.redel
+			break
+		}
+		if i == 0 {
+			first = v
+		}
+		if i == len(orders)-1 {
+			fail(first.stage, first.f)
+			return
+		}
+	}
+	nd := 0
+	if cons != nil {
+		nd = len(cons.Delivered)
+	}
+	out.Outcome = fmt.Sprintf("sched:ok:%s/consumer-got=%d/left=%d", sc.kinds(), min(nd, 4), min(len(out.Obs.Live), 4))
+	if out.Redeliv {
+		out.Outcome += "/redelivery"
+	}
+}
+
+func (r schedRec) String() string {
+	s := fmt.Sprintf("T%d %s [%d,%d]", r.Thread, r.Op, r.Call, r.Ret)
+	switch {
+	case r.Entry != nil || strings.HasPrefix(r.Op, "Purge"):
+		s += " -> " + errClass(r.Err)
+	case r.Err != nil:
+		s += " -> " + errClass(r.Err)
+	default:
+		s += " -> got " + shortList(r.Delivered)
+		if r.AdvCalled {
+			s += ", Advance " + errClass(r.AdvErr)
+		}
+	}
+	return s
+}
+
+func schedHistory(o *schedOut) string {
+	var s []string
+	for _, r := range o.Recs {
+		s = append(s, r.String())
+	}
+	return strings.Join(s, "; ")
+}
+
+// schedSig: clause + where it showed (call/return history | live read-out | read-out after restart) + the kinds of
+// threads that ran concurrently. Initial state, sizes and the schedule are not part of it.
+func schedSig(sc SchedScenario, o *schedOut) string {
+	return vlib.JoinSig("sched", o.Fail.Clause, o.Stage, o.Fail.Feat, sc.kinds())
+}
+
+func schedScenarios(thorough bool) []SchedScenario {
+	inits := [][]string{
+		{OpAppend9},                       // one segment with room for one more 9-byte entry (25 -> 42 >= 40 bytes: full)
+		{OpAppend9, OpAppend1},            // one segment, 34 bytes: any further entry fills it
+		{OpAppend9, OpAdvance},            // one segment, not full, head behind its only entry (nothing to deliver)
+		{OpAppend9, OpAppend9},            // one full segment: the next append rolls
+		{OpAppend9, OpAppend9, OpAppend9}, // two segments: full head, tail with room
+		{OpAppend9, OpAppend9, OpAdvance}, // one full segment, head advanced inside it
+		{},                                // fresh queue
+		{OpAppendSeg},                     // one over-full segment holding one segment-filling entry
+		{OpAppend9, OpAppend9, OpAppend9, OpScanAll}, // the full head segment consumed and trimmed: one segment with room
+	}
+	appenders := [][]string{{OpAppend9}, {OpAppend1}, {OpAppend9, OpAppend9}, {OpAppendSeg}, {OpAppend1, OpAppend9}}
+	consumers := []SchedThread{{Kind: "scan"}, {Kind: "scan", N: 1}, {Kind: "advance"}, {Kind: "purge"}}
+	others := append(append([]SchedThread{}, consumers...), SchedThread{Kind: "append", Appends: []string{OpAppend9}}, SchedThread{Kind: "append", Appends: []string{OpAppend1, OpAppendSeg}})
+	var out []SchedScenario
+	for _, ap := range appenders {
+		for _, in := range inits {
+			for _, ot := range others {
+				out = append(out, SchedScenario{Init: in, Threads: []SchedThread{{Kind: "append", Appends: ap}, ot}})
+			}
+		}
+	}
+	if thorough {
+		// three threads: two appenders against one consumer
+		for _, ap2 := range [][]string{{OpAppend9}, {OpAppend1}} {
+			for _, in := range inits {
+				for _, ot := range consumers {
+					out = append(out, SchedScenario{Init: in, Threads: []SchedThread{{Kind: "append", Appends: []string{OpAppend9}}, {Kind: "append", Appends: ap2}, ot}})
+				}
+			}
+		}
+	}
+	return out
+}
+
+func schedTrace(r *vrt.Result) []string {
+	var tr []string
+	for _, s := range r.Steps {
+		p := ""
+		if s.Preempt {
+			p = " (preemption)"
+		}
+		tr = append(tr, fmt.Sprintf("T%d %s%s", s.Thread, s.Label, p))
+	}
+	return tr
+}
+
+// runSchedules is the schedule phase of Run: this worker's share of the scenarios, every schedule with <= bound
+// preemptions each. It may use at most `share` of wall time.
+func runSchedules(t *testing.T, c *vlib.Ctx, share time.Duration) {
+	defer func() {
+		if r := recover(); r != nil {
+			c.HarnessError(fmt.Sprintf("schedule part: explorer panicked: %v\n%s", r, debug.Stack()))
+		}
+	}()
+	base := vlib.Scratch("c26s-")
+	defer os.RemoveAll(base)
+	bound := 2
+	if c.Thorough() {
+		bound = 3
+	}
+	if b := os.Getenv("C26_SCHED_BOUND"); b != "" {
+		bound, _ = strconv.Atoi(b)
+	}
+	deadline := time.Now().Add(share)
+	stop := func() bool { return c.Expired() || time.Now().After(deadline) }
+	scs := schedScenarios(c.Thorough())
+	if c.Shard == 0 {
+		c.Extra("sched_scenarios", int64(len(scs)))
+		c.Extra("sched_preemption_bound", int64(bound))
+	}
+	for si, sc := range scs {
+		if !c.Mine(int64(si)) {
+			continue
+		}
+		if stop() {
+			c.Cap("the schedule part's share of the budget expired before all of its scenarios were explored")
+			return
+		}
+		var out schedOut
+		h := schedHarness(base, sc, &out)
+		b := bound
+		if len(sc.Threads) > 2 {
+			b = min(b, 2) // three-thread scenarios (thorough tier): <= 2 preemptions
+		}
+		st := vrt.Explore(t, h, b, 0, 1, stop, func(r *vrt.Result) {
+			c.Eval(1)
+			if r.Diverged != "" {
+				c.HarnessError("schedule part, " + sc.String() + ": " + r.Diverged)
+				return
+			}
+			if r.Preempts > 0 {
+				c.NontrivialN(1) // distinct by construction: a different choice sequence of the same scenario
+			}
+			cs := SchedCase{Scenario: sc, Schedule: r.Choices}
+			if out.Deadlock != "" || r.Deadlock || r.StepCap {
+				what := out.Deadlock
+				if what == "" {
+					what = "deadlock"
+				}
+				c.Outcome("sched:" + what)
+				cs.Trace = schedTrace(r)
+				c.Violation(vlib.JoinSig("sched", what, sc.kinds()), fmt.Sprintf("schedule part, %s: %s: %s", sc, what, strings.Join(r.Blocked, "; ")), Case{Sched: &cs})
+				return
+			}
+			if out.Harness != "" {
+				c.HarnessError(fmt.Sprintf("schedule part, %s, schedule %v: %s", sc, r.Choices, out.Harness))
+				return
+			}
+			if out.Fail == nil {
+				c.Outcome(out.Outcome)
+				if c.WantSample() && r.Preempts == b && len(out.Obs.Live) > 0 {
+					c.Sample(map[string]any{"part": "schedules", "scenario": sc.String(), "schedule": r.Choices, "preemptions": r.Preempts, "history": schedHistory(&out), "live_read_out": shortList(out.Obs.Live), "read_out_after_restart": shortList(out.Obs.ReScan)})
+				}
+				return
+			}
+			c.Outcome("FAIL:sched:" + out.Fail.Clause + "@" + out.Stage)
+			cs.Trace = schedTrace(r)
+			c.Violation(schedSig(sc, &out), fmt.Sprintf("schedule part, %s, %d preemptions: %s | history: %s | steps: %s", sc, r.Preempts, out.Fail.Why, schedHistory(&out), strings.Join(cs.Trace, "; ")), Case{Sched: &cs})
+		})
+		c.StateN(st.Nodes)
+		c.Transition(st.Transitions)
+		c.Trace(st.Executions)
+		c.Extra("sched_states", st.Nodes)
+		c.Extra("sched_transitions", st.Transitions)
+		c.Extra("sched_traces", st.Executions)
+		if !st.Complete {
+			c.Cap("the schedule part's share of the budget expired inside scenario " + sc.String())
+			return
+		}
+		c.Extra("sched_scenarios_completed", 1)
+	}
+}
+
+func replaySched(t *testing.T, cs *SchedCase) (bool, string) {
+	base := vlib.Scratch("c26sr-")
+	defer os.RemoveAll(base)
+	var out schedOut
+	r := vrt.RunOnce(t, schedHarness(base, cs.Scenario, &out), cs.Schedule)
+	obs := fmt.Sprintf("schedule part: %s schedule=%v", cs.Scenario, cs.Schedule)
+	switch {
+	case r.Diverged != "":
+		return false, obs + " -> diverged: " + r.Diverged
+	case out.Deadlock != "" || r.Deadlock || r.StepCap:
+		return true, obs + fmt.Sprintf(" -> deadlock=%v stepcap=%v blocked=%v", r.Deadlock, r.StepCap, r.Blocked)
+	case out.Harness != "":
+		return false, obs + " -> harness problem: " + out.Harness
+	}
+	obs += fmt.Sprintf(" history=[%s] live: Current=%s/%s read-out=%s; after restart: %s (Current+Advance) %s (scanner)", schedHistory(&out), short(out.Obs.LiveCur), errClass(out.Obs.LiveCurErr), shortList(out.Obs.Live), shortList(out.Obs.ReCur), shortList(out.Obs.ReScan))
+	if out.Fail == nil {
+		return false, obs + " -> ok"
+	}
+	return true, obs + fmt.Sprintf(" -> %s@%s/%s: %s", out.Fail.Clause, out.Stage, out.Fail.Feat, out.Fail.Why)
+}
+
 // ReducedAlphabet drops the two ops that never change what is delivered (used for the deepest level only).
 var ReducedAlphabet = []string{OpAppend1, OpAppend9, OpAppendSeg, OpAdvance, OpScan1, OpScanAll, OpReopen, OpPurgeAll, OpShrink}
 
@@ -1674,7 +2305,7 @@ func TestCheck(t *testing.T) {
 		return
 	}
 	vlib.Main(t, &vlib.Check{
-		ID: "C26", Level: "model_checking", QuickBudgetS: 45, ThoroughBudgetS: 780,
+		ID: "C26", Level: "model_checking", QuickBudgetS: 55, ThoroughBudgetS: 780, WorkerEnv: []string{"GOMAXPROCS=1"},
 		Rule: "every op sequence of length <= d (quick d=4; thorough d=5, plus every sequence of length exactly 6 over the 9-op alphabet without the two delivery-neutral ops purgeNone and growMax) over the 11-op alphabet {append 1 B, append 9 B, append segment-filling 40 B, Queue.Advance, scanner Next x1 + Advance, scanner Next-to-end + Advance, reopen (Close + fresh Queue + Open), PurgeOlderThan(nothing old), PurgeOlderThan(all segments aged), SetMaxSize(80 = smallest legal), SetMaxSize(1024)} with max segment size 40 (rollover after <= 3 small entries), each replayed from scratch on the real Queue in a fresh directory, times 4 complete read-outs {live|after reopen} x {Current+Advance | scanner}; oracle = FIFO list model: Current after every op is the model head (or an error when empty), scanner output is a non-empty prefix of the remaining list, the final read-out equals the remaining list exactly, a rejected Append never shows up, an accepted Append never leaves more not-advanced payload than the max size, an Append is not rejected while the segment files plus the entry (+16 bytes framing) fit the max size. State = (sequence, read-out) node of the exploration tree, transition = one executed op, trace = one sequence validated against the implementation. Non-trivial = sequences containing at least one accepted append (distinct by construction). CRASH FAMILY (additional clause, engine crashfs; counted under the crash_* coverage keys and the crash:* outcomes, not under states/transitions/traces): histories over {append 1 B, append 9 B, append 40 B, Queue.Advance, scanner Next x1 + Advance, scanner Next-to-end + Advance, reopen} performed by a writer subprocess on the real Queue (max segment size 40) under strace with BEGIN/ACK markers around the initial Open and every op; quick: 4 hand-picked histories of 5-8 ops (append into fresh/rolled segment, length word equal to a record boundary, segment roll, Advance footer writes, trim of a full single segment = addSegment + remove, scanner trim with a tail segment, reopen), every cut; thorough: 7 hand-picked histories (every cut) plus EVERY sequence of length 0..3 over the 6-op alphabet without scanner-x1 (259 recordings; of each only the cuts inside or after its last op, so every (history prefix, cut) is evaluated once). Per history every prefix of the syscall-level event list (P), every torn length 1..n-1 of the write in flight (T; all writes are <= 56 bytes, no subsampling), and for the segment files (sync class [0-9]*) the images with un-fsynced data dropped or its last write torn (U); directory operations in program order; images deduplicated by (content, acknowledged ops, op in flight). One evaluation = one (image, acknowledgement context, read-out mode in {Current+Advance, scanner}) recovered in a fresh subprocess: real Queue.Open on the image, one more Append (must be accepted), directory copied without closing (second process death), complete read-out, then Open of the copy, complete read-out, one more Append, read-out. Crash oracle: each complete read-out = Appended[k:] for some k <= model head (k <= head + n while an Advance/scanner-Advance over n entries is in flight), optionally followed by the entry of the Append in flight as a whole, followed by the entry appended after the recovery; nothing else; Open must succeed. Non-trivial crash case = first read-out holds at least one entry of the history.",
 		Assumptions: []string{
 			"entries are non-empty (the scanner skips zero-length records by design)",
@@ -1690,6 +2321,16 @@ func TestCheck(t *testing.T) {
 		Run: func(c *vlib.Ctx) {
 			runCrash(c) // crash family first: small and of fixed size, so a budget cap always lands in the sequence family
 			if os.Getenv("C26_ONLY") == "crash" {
+				return
+			}
+			if os.Getenv("C26_ONLY") != "seq" {
+				share := 25 * time.Second
+				if c.Thorough() {
+					share = 300 * time.Second
+				}
+				runSchedules(t, c, share) // schedule part: small and of fixed size too
+			}
+			if os.Getenv("C26_ONLY") == "sched" {
 				return
 			}
 			base := vlib.Scratch("c26-")
@@ -1779,6 +2420,9 @@ func TestCheck(t *testing.T) {
 			}
 			if cs.Crash != nil {
 				return replayCrash(cs.Crash)
+			}
+			if cs.Sched != nil {
+				return replaySched(t, cs.Sched)
 			}
 			base := vlib.Scratch("c26r-")
 			defer os.RemoveAll(base)
